@@ -119,7 +119,7 @@ def run(ctx, scratch):
                 continue
             for rep in range(reps):
                 kind = cases.pick_kind(rng, d)
-                weighted = rng.random() < 0.6
+                weighted = rng.random() < 0.6 or rep == 2
                 spec, nr, nc, fam = cases.make_matrix(rng, kind, nmax, weighted=weighted)
                 if rep == 1 and kind in ('sq', 'sym') and nr == nc:
                     # once per entry point: an UNWEIGHTED graph with a self-loop (where bool, int and float entries of equal value
@@ -139,7 +139,7 @@ def run(ctx, scratch):
                     opts = cases.gnn_opts(rng, nr)
                 if name == 'get_dag':
                     opts['order'] = [rng.randint(-1, 3) for _ in range(nr)]
-                big = weighted and rng.random() < 0.15
+                big = weighted and (rng.random() < 0.15 or rep == 2)     # once per entry point, independent of the stream (defect D38)
                 if big:
                     # the same graph with weights 64 / 128 / 192 (a function of the old weight, so symmetry is kept): equal values in
                     # int64, float64 and uint8 storage, where sums of two or four of them are multiples of 256
